@@ -187,7 +187,7 @@ func runLimited(h []Letter, bars []*colarspb.BatchArrowRecords, limit uint64, us
 			r.ok = append(r.ok, true)
 			r.canon = append(r.canon, got)
 		}
-		if !useDefault && rec.sum > int64(limit) {
+		if !useDefault && rec.sum > 0 && uint64(rec.sum) > limit {
 			r.viol = append(r.viol, fmt.Sprintf("after batch %d the published arrow_memory_inuse is %d > limit %d", i, rec.sum, limit))
 		}
 		if rec.sum < 0 {
@@ -197,7 +197,7 @@ func runLimited(h []Letter, bars []*colarspb.BatchArrowRecords, limit uint64, us
 	if pan := protect(func() { c.Close() }); pan != "" {
 		r.viol = append(r.viol, "Close panicked: "+pan)
 	}
-	if !useDefault && rec.sum > int64(limit) {
+	if !useDefault && rec.sum > 0 && uint64(rec.sum) > limit {
 		r.viol = append(r.viol, fmt.Sprintf("after Close the published arrow_memory_inuse is %d > limit %d", rec.sum, limit))
 	}
 	if rec.sum != 0 {
@@ -283,6 +283,21 @@ func limitLadder(h []Letter, zstd int, counters map[string]int, maxLimit uint64)
 		if !r.anyErr {
 			lstar = L
 			break
+		}
+	}
+	// the top of the ladder: limits at and around the width of the limit's type; a batch
+	// that is decodable under the default limit is decodable under every larger one
+	for _, L := range []uint64{1 << 31, 1<<32 - 1, 1 << 32, 1<<62 + 1, 1<<63 - 1, 1 << 63, 1<<63 + 64, 1<<64 - 64, 1<<64 - 1} {
+		r := runLimited(h, bars, L, false)
+		counters["limit_runs"]++
+		counters["huge_limit_runs"]++
+		viol[L] = append(viol[L], r.viol...)
+		for i := range h {
+			if !r.ok[i] {
+				viol[L] = append(viol[L], fmt.Sprintf("batch %d is decodable under the default limit but refused under the larger limit %d", i, L))
+			} else if !sameCanon(r.canon[i], base.canon[i]) {
+				viol[L] = append(viol[L], fmt.Sprintf("batch %d decodes to different telemetry under limit %d than under the default limit", i, L))
+			}
 		}
 	}
 	return viol, lstar, exhaustive
@@ -529,7 +544,7 @@ func init() {
 		}
 		return map[string]any{"limit_runs": c["limit_runs"], "limit_runs_with_refusal": c["limit_runs_with_refusal"], "ladders_capped": c["ladder_capped"], "declared_size_cases": c["declared_size_cases"], "panics_on_unhealthy_stream_not_judged": c["panics_on_unhealthy_stream_not_judged"],
 			"largest_first_limit_without_refusal": maxL, "exhaustive": c["ladder_capped"] == 0, "max_dictionary_entries_seen": 0,
-			"ladder": "limits 64*k for k = 0.. up to the first limit with no refusal in the whole history, each with the unaligned limits L+1 and L+63, plus the default 70 MiB"}
+			"ladder": "limits 64*k for k = 0.. up to the first limit with no refusal in the whole history, each with the unaligned limits L+1 and L+63, plus the default 70 MiB and nine limits between 2^31 and 2^64-1"}
 	}
 }
 
